@@ -402,6 +402,17 @@ fn run_op(ctx: &Ctx, line: &str) -> String {
             )
         }
         "U" => or_panic(guarded(|| format!("u={}", hex(pm.uuid().as_bytes())))),
+        "US" => or_panic(guarded(|| {
+            // history: hash the parent first, then the section taken from it, then the parent again
+            let (a, b): (usize, usize) = (toks[1].parse().expect("start"), toks[2].parse().expect("end"));
+            let before = pm.uuid();
+            let sec = pm.section(a..b);
+            let su = sec.uuid();
+            let su2 = sec.section(0..(b - a)).uuid();
+            let after = pm.uuid();
+            format!("u={};again={};parent_stable={}", hex(su.as_bytes()), hex(su2.as_bytes()), (before == after) as u8)
+        })),
+        "DOM" => format!("dom={}", crate::props::representable(ctx.mapping) as u8),
         "Z" => or_panic(guarded(|| run_sink_op(ctx.mapping, &toks[1..]))),
         "W" => match ctx.cache_bytes {
             None => format!("w={}", ctx.cache_state),
@@ -596,7 +607,7 @@ fn run_sink_op(mapping: &[u8], toks: &[&str]) -> String {
 }
 
 fn is_group_op(l: &str) -> bool {
-    matches!(l.split(' ').next().unwrap_or(""), "I" | "D" | "K" | "T" | "L" | "P" | "S" | "Y" | "G" | "W" | "U" | "Z")
+    matches!(l.split(' ').next().unwrap_or(""), "I" | "D" | "K" | "T" | "L" | "P" | "S" | "Y" | "G" | "W" | "U" | "Z" | "DOM" | "US")
 }
 fn is_x_op(l: &str) -> bool {
     matches!(l.split(' ').next().unwrap_or(""), "k" | "t" | "l" | "p" | "s" | "g")
